@@ -19,10 +19,55 @@
                 invariant
                     crate::is_tail(bytes@, bytes0), crate::frame::tail_base(bytes0), bytes@.len() <= bytes0.len(),
                     curr_len <= usize::MAX,
+        //@ tag tags.bookkeeping C13
+                    actual_tags@ =~= seen,
+                    required_tags@ =~= Set::<u16>::empty().difference(seen),
+        //@ tag tags.loop.decreases C02
                 decreases bytes@.len() + (if curr_len != bytes@.len() { 1nat } else { 0nat }),
         //@ entry
             let ghost bytes0 = bytes@;
+            let ghost mut seen: Set<u16> = Set::<u16>::empty();
             proof { lemma_slice_len_le_isize_max(bytes); crate::frame::lemma_tail_base(bytes0); }
+        //@ before (file_id,bytes)=<
+        //@ tag tags.no_second_dispatch.file_id C13
+            proof { assert(!seen.contains(29u16)); seen = seen.insert(29u16) ; }
+        //@ before returnErr(zvt_builder::ZVTError::DuplicateTag(zvt_builder::Tag(29u16)
+        //@ tag tags.duplicate_error_is_true.file_id C13
+            proof { assert(seen.contains(29u16)) ; }
+        //@ before (file_offset,bytes)=<
+        //@ tag tags.no_second_dispatch.file_offset C13
+            proof { assert(!seen.contains(30u16)); seen = seen.insert(30u16) ; }
+        //@ before returnErr(zvt_builder::ZVTError::DuplicateTag(zvt_builder::Tag(30u16)
+        //@ tag tags.duplicate_error_is_true.file_offset C13
+            proof { assert(seen.contains(30u16)) ; }
+        //@ before (file_size,bytes)=<
+        //@ tag tags.no_second_dispatch.file_size C13
+            proof { assert(!seen.contains(7936u16)); seen = seen.insert(7936u16) ; }
+        //@ before returnErr(zvt_builder::ZVTError::DuplicateTag(zvt_builder::Tag(7936u16)
+        //@ tag tags.duplicate_error_is_true.file_size C13
+            proof { assert(seen.contains(7936u16)) ; }
+        //@ before (payload,bytes)=<
+        //@ tag tags.no_second_dispatch.payload C13
+            proof { assert(!seen.contains(28u16)); seen = seen.insert(28u16) ; }
+        //@ before returnErr(zvt_builder::ZVTError::DuplicateTag(zvt_builder::Tag(28u16)
+        //@ tag tags.duplicate_error_is_true.payload C13
+            proof { assert(seen.contains(28u16)) ; }
+        //@ before letmutas_vec
+            let ghost req_left = required_tags@;
+        //@ before returnErr(zvt_builder::ZVTError::MissingRequiredTags
+        //@ tag tags.missing_names_all C13
+            proof {
+                assert(req_left =~= Set::<u16>::empty().difference(seen));
+                assert forall|i: int| 0 <= i < as_vec@.len() implies Set::<u16>::empty().contains((#[trigger] as_vec@[i]).0) && !seen.contains(as_vec@[i].0) by {
+                    assert(req_left.contains(as_vec@[i].0));
+                }
+                assert forall|t: u16| Set::<u16>::empty().contains(t) && !seen.contains(t) implies exists|i: int| 0 <= i < as_vec@.len() && (#[trigger] as_vec@[i]).0 == t by {
+                    assert(req_left.contains(t));
+                }
+            }
+        //@ tail
+        //@ tag tags.ok_only_if_all_mandatory C13
+            proof { assert(Set::<u16>::empty().subset_of(seen)); }
         //@ end
         proof fn law_dec_bounds(b: Seq<u8>) {}
         proof fn law_dec_frame(b: Seq<u8>, s: Seq<u8>) {}
@@ -50,10 +95,37 @@
                 invariant
                     crate::is_tail(bytes@, bytes0), crate::frame::tail_base(bytes0), bytes@.len() <= bytes0.len(),
                     curr_len <= usize::MAX,
+        //@ tag tags.bookkeeping C13
+                    actual_tags@ =~= seen,
+                    required_tags@ =~= Set::<u16>::empty().difference(seen),
+        //@ tag tags.loop.decreases C02
                 decreases bytes@.len() + (if curr_len != bytes@.len() { 1nat } else { 0nat }),
         //@ entry
             let ghost bytes0 = bytes@;
+            let ghost mut seen: Set<u16> = Set::<u16>::empty();
             proof { lemma_slice_len_le_isize_max(bytes); crate::frame::lemma_tail_base(bytes0); }
+        //@ before (file,bytes)=<
+        //@ tag tags.no_second_dispatch.file C13
+            proof { assert(!seen.contains(45u16)); seen = seen.insert(45u16) ; }
+        //@ before returnErr(zvt_builder::ZVTError::DuplicateTag(zvt_builder::Tag(45u16)
+        //@ tag tags.duplicate_error_is_true.file C13
+            proof { assert(seen.contains(45u16)) ; }
+        //@ before letmutas_vec
+            let ghost req_left = required_tags@;
+        //@ before returnErr(zvt_builder::ZVTError::MissingRequiredTags
+        //@ tag tags.missing_names_all C13
+            proof {
+                assert(req_left =~= Set::<u16>::empty().difference(seen));
+                assert forall|i: int| 0 <= i < as_vec@.len() implies Set::<u16>::empty().contains((#[trigger] as_vec@[i]).0) && !seen.contains(as_vec@[i].0) by {
+                    assert(req_left.contains(as_vec@[i].0));
+                }
+                assert forall|t: u16| Set::<u16>::empty().contains(t) && !seen.contains(t) implies exists|i: int| 0 <= i < as_vec@.len() && (#[trigger] as_vec@[i]).0 == t by {
+                    assert(req_left.contains(t));
+                }
+            }
+        //@ tail
+        //@ tag tags.ok_only_if_all_mandatory C13
+            proof { assert(Set::<u16>::empty().subset_of(seen)); }
         //@ end
         proof fn law_dec_bounds(b: Seq<u8>) {}
         proof fn law_dec_frame(b: Seq<u8>, s: Seq<u8>) {}
@@ -81,10 +153,37 @@
                 invariant
                     crate::is_tail(bytes@, bytes0), crate::frame::tail_base(bytes0), bytes@.len() <= bytes0.len(),
                     curr_len <= usize::MAX,
+        //@ tag tags.bookkeeping C13
+                    actual_tags@ =~= seen,
+                    required_tags@ =~= Set::<u16>::empty().difference(seen),
+        //@ tag tags.loop.decreases C02
                 decreases bytes@.len() + (if curr_len != bytes@.len() { 1nat } else { 0nat }),
         //@ entry
             let ghost bytes0 = bytes@;
+            let ghost mut seen: Set<u16> = Set::<u16>::empty();
             proof { lemma_slice_len_le_isize_max(bytes); crate::frame::lemma_tail_base(bytes0); }
+        //@ before (files,bytes)=<
+        //@ tag tags.no_second_dispatch.files C13
+            proof { assert(!seen.contains(45u16)); seen = seen.insert(45u16) ; }
+        //@ before returnErr(zvt_builder::ZVTError::DuplicateTag(zvt_builder::Tag(45u16)
+        //@ tag tags.duplicate_error_is_true.files C13
+            proof { assert(seen.contains(45u16)) ; }
+        //@ before letmutas_vec
+            let ghost req_left = required_tags@;
+        //@ before returnErr(zvt_builder::ZVTError::MissingRequiredTags
+        //@ tag tags.missing_names_all C13
+            proof {
+                assert(req_left =~= Set::<u16>::empty().difference(seen));
+                assert forall|i: int| 0 <= i < as_vec@.len() implies Set::<u16>::empty().contains((#[trigger] as_vec@[i]).0) && !seen.contains(as_vec@[i].0) by {
+                    assert(req_left.contains(as_vec@[i].0));
+                }
+                assert forall|t: u16| Set::<u16>::empty().contains(t) && !seen.contains(t) implies exists|i: int| 0 <= i < as_vec@.len() && (#[trigger] as_vec@[i]).0 == t by {
+                    assert(req_left.contains(t));
+                }
+            }
+        //@ tail
+        //@ tag tags.ok_only_if_all_mandatory C13
+            proof { assert(Set::<u16>::empty().subset_of(seen)); }
         //@ end
         proof fn law_dec_bounds(b: Seq<u8>) {}
         proof fn law_dec_frame(b: Seq<u8>, s: Seq<u8>) {}
@@ -112,10 +211,31 @@
                 invariant
                     crate::is_tail(bytes@, bytes0), crate::frame::tail_base(bytes0), bytes@.len() <= bytes0.len(),
                     curr_len <= usize::MAX,
+        //@ tag tags.bookkeeping C13
+                    actual_tags@ =~= seen,
+                    required_tags@ =~= Set::<u16>::empty().difference(seen),
+        //@ tag tags.loop.decreases C02
                 decreases bytes@.len() + (if curr_len != bytes@.len() { 1nat } else { 0nat }),
         //@ entry
             let ghost bytes0 = bytes@;
+            let ghost mut seen: Set<u16> = Set::<u16>::empty();
             proof { lemma_slice_len_le_isize_max(bytes); crate::frame::lemma_tail_base(bytes0); }
+        //@ before letmutas_vec
+            let ghost req_left = required_tags@;
+        //@ before returnErr(zvt_builder::ZVTError::MissingRequiredTags
+        //@ tag tags.missing_names_all C13
+            proof {
+                assert(req_left =~= Set::<u16>::empty().difference(seen));
+                assert forall|i: int| 0 <= i < as_vec@.len() implies Set::<u16>::empty().contains((#[trigger] as_vec@[i]).0) && !seen.contains(as_vec@[i].0) by {
+                    assert(req_left.contains(as_vec@[i].0));
+                }
+                assert forall|t: u16| Set::<u16>::empty().contains(t) && !seen.contains(t) implies exists|i: int| 0 <= i < as_vec@.len() && (#[trigger] as_vec@[i]).0 == t by {
+                    assert(req_left.contains(t));
+                }
+            }
+        //@ tail
+        //@ tag tags.ok_only_if_all_mandatory C13
+            proof { assert(Set::<u16>::empty().subset_of(seen)); }
         //@ end
         proof fn law_dec_bounds(b: Seq<u8>) {}
         proof fn law_dec_frame(b: Seq<u8>, s: Seq<u8>) {}
@@ -143,10 +263,43 @@
                 invariant
                     crate::is_tail(bytes@, bytes0), crate::frame::tail_base(bytes0), bytes@.len() <= bytes0.len(),
                     curr_len <= usize::MAX,
+        //@ tag tags.bookkeeping C13
+                    actual_tags@ =~= seen,
+                    required_tags@ =~= set![65344u16].difference(seen),
+        //@ tag tags.loop.decreases C02
                 decreases bytes@.len() + (if curr_len != bytes@.len() { 1nat } else { 0nat }),
         //@ entry
             let ghost bytes0 = bytes@;
+            let ghost mut seen: Set<u16> = Set::<u16>::empty();
             proof { lemma_slice_len_le_isize_max(bytes); crate::frame::lemma_tail_base(bytes0); }
+        //@ before (password,bytes)=<
+        //@ tag tags.no_second_dispatch.password C13
+            proof { assert(!seen.contains(65344u16)); seen = seen.insert(65344u16) ; }
+        //@ before returnErr(zvt_builder::ZVTError::DuplicateTag(zvt_builder::Tag(65344u16)
+        //@ tag tags.duplicate_error_is_true.password C13
+            proof { assert(seen.contains(65344u16)) ; }
+        //@ before (host_configuration_data,bytes)=<
+        //@ tag tags.no_second_dispatch.host_configuration_data C13
+            proof { assert(!seen.contains(65345u16)); seen = seen.insert(65345u16) ; }
+        //@ before returnErr(zvt_builder::ZVTError::DuplicateTag(zvt_builder::Tag(65345u16)
+        //@ tag tags.duplicate_error_is_true.host_configuration_data C13
+            proof { assert(seen.contains(65345u16)) ; }
+        //@ before letmutas_vec
+            let ghost req_left = required_tags@;
+        //@ before returnErr(zvt_builder::ZVTError::MissingRequiredTags
+        //@ tag tags.missing_names_all C13
+            proof {
+                assert(req_left =~= set![65344u16].difference(seen));
+                assert forall|i: int| 0 <= i < as_vec@.len() implies set![65344u16].contains((#[trigger] as_vec@[i]).0) && !seen.contains(as_vec@[i].0) by {
+                    assert(req_left.contains(as_vec@[i].0));
+                }
+                assert forall|t: u16| set![65344u16].contains(t) && !seen.contains(t) implies exists|i: int| 0 <= i < as_vec@.len() && (#[trigger] as_vec@[i]).0 == t by {
+                    assert(req_left.contains(t));
+                }
+            }
+        //@ tail
+        //@ tag tags.ok_only_if_all_mandatory C13
+            proof { assert(!set![65344u16].difference(seen).contains(65344u16)); assert(set![65344u16].subset_of(seen)); }
         //@ end
         proof fn law_dec_bounds(b: Seq<u8>) {}
         proof fn law_dec_frame(b: Seq<u8>, s: Seq<u8>) {}
@@ -174,10 +327,37 @@
                 invariant
                     crate::is_tail(bytes@, bytes0), crate::frame::tail_base(bytes0), bytes@.len() <= bytes0.len(),
                     curr_len <= usize::MAX,
+        //@ tag tags.bookkeeping C13
+                    actual_tags@ =~= seen,
+                    required_tags@ =~= set![228u16].difference(seen),
+        //@ tag tags.loop.decreases C02
                 decreases bytes@.len() + (if curr_len != bytes@.len() { 1nat } else { 0nat }),
         //@ entry
             let ghost bytes0 = bytes@;
+            let ghost mut seen: Set<u16> = Set::<u16>::empty();
             proof { lemma_slice_len_le_isize_max(bytes); crate::frame::lemma_tail_base(bytes0); }
+        //@ before (system_information,bytes)=<
+        //@ tag tags.no_second_dispatch.system_information C13
+            proof { assert(!seen.contains(228u16)); seen = seen.insert(228u16) ; }
+        //@ before returnErr(zvt_builder::ZVTError::DuplicateTag(zvt_builder::Tag(228u16)
+        //@ tag tags.duplicate_error_is_true.system_information C13
+            proof { assert(seen.contains(228u16)) ; }
+        //@ before letmutas_vec
+            let ghost req_left = required_tags@;
+        //@ before returnErr(zvt_builder::ZVTError::MissingRequiredTags
+        //@ tag tags.missing_names_all C13
+            proof {
+                assert(req_left =~= set![228u16].difference(seen));
+                assert forall|i: int| 0 <= i < as_vec@.len() implies set![228u16].contains((#[trigger] as_vec@[i]).0) && !seen.contains(as_vec@[i].0) by {
+                    assert(req_left.contains(as_vec@[i].0));
+                }
+                assert forall|t: u16| set![228u16].contains(t) && !seen.contains(t) implies exists|i: int| 0 <= i < as_vec@.len() && (#[trigger] as_vec@[i]).0 == t by {
+                    assert(req_left.contains(t));
+                }
+            }
+        //@ tail
+        //@ tag tags.ok_only_if_all_mandatory C13
+            proof { assert(!set![228u16].difference(seen).contains(228u16)); assert(set![228u16].subset_of(seen)); }
         //@ end
         proof fn law_dec_bounds(b: Seq<u8>) {}
         proof fn law_dec_frame(b: Seq<u8>, s: Seq<u8>) {}
